@@ -43,11 +43,12 @@ class Pipeline(Instance):
     a sync round every pack_size contigs)."""
     crates = ("ragc-core", "ragc-common")
 
-    def __init__(self, name, threads, samples, k=3, splitters=(), preempt=1, driver="api", view="roundtrip", qcap=1 << 20, zstd="token", sym=(), sym_alpha=(0, 1, 2, 3, 4, 7, 30), edits=(), **cfg):
+    def __init__(self, name, threads, samples, k=3, splitters=(), preempt=1, driver="api", view="roundtrip", qcap=1 << 20, zstd="token", sym=(), sym_alpha=(0, 1, 2, 3, 4, 7, 30), edits=(), alts=None, **cfg):
         Instance.__init__(self, name)
         self.threads, self.samples, self.k, self.splitters, self.cfg, self.preempt = threads, samples, k, splitters, cfg, preempt
         self.driver, self.view, self.qcap, self.zstd = driver, view, qcap, zstd
         self.sym, self.sym_alpha = tuple(sym), tuple(sym_alpha)      # (sample index, contig index, position): bases that are symbolic over sym_alpha
+        self.alts = alts                 # [(samples, splitters)]: the input set itself is an engine choice (one alternative per path)
         self.edits = tuple(edits)        # (kind in subst/del/ins/rc, sample index, contig index): one edit at EVERY position (engine choice) with a symbolic base
         self.overflow_checks = driver != "single"      # single-file mode relies on wrapping i32 priorities (known finding F7): release semantics there
         self.required_witnesses = ("finalized",)
@@ -58,9 +59,25 @@ class Pipeline(Instance):
                        "symbolic edits": [f"one {kind} in sample {si} contig {ci} at every position" + ("" if kind in ("del", "rc", "delrange") else f" with every code of {list(sym_alpha)}") for kind, si, ci in edits], "driver": driver, "queue capacity (bytes)": qcap, "zstd stub": zstd + " (deterministic lossless codec; 'token' always shrinks, 'store' never does)", "config": {n: (v.v if hasattr(v, 'v') else v) for n, v in cfg.items()},
                        "schedules": f"every interleaving of producer and workers at lock/wait/barrier/sleep points with at most {preempt} preemption(s); blocking switches unbounded"}
 
+    def setup(self, e):
+        # observe (not replace) the split decision of the barrier-time classification: the real function runs, its verdict becomes a witness
+        target = [f for (cr, name), f in e.p.funcs.items() if cr == CORE and name.endswith("find_split_by_cost") and "verif_hooks" not in name]
+        if target:
+            def spy(e_, c, a, _f=target[0]):
+                r = e_.run_func(_f, a, c)
+                e_.witness("decision:" + e_.p.enums["SplitDecision"][r.variant])
+                return r
+            e.stub(r"(^|::)find_split_by_cost$", spy)
+
     # ---------------------------------------------------------------- driving the real API
+    def pick_alt(self, e):
+        if self.alts and "alt" not in e.h:
+            i = e.choose(len(self.alts), "alt"); e.h["alt"] = i
+            self.samples, self.splitters = self.alts[i]
+
     def build(self, e, sched=True):
         from mirsym import models_io
+        self.pick_alt(e)
         e.fs = models_io.FS()
         e.h["zstd_mode"] = self.zstd          # the codec stub must be a function of its input here (one frame length per call, no free choice)
         s = Sched(e, max_switches=50000, max_preempt=self.preempt if sched else 0)
@@ -341,6 +358,16 @@ def _rc(c):
 C4 = [2, 1, 0, 3, 1, 0, 0, 3, 2, 0, 3, 1, 2, 0, 2, 1, 1, 2, 3, 2, 2, 0, 0, 0, 0, 0, 0]
 SPL3 = [(0, 0, 3), (2, 0, 2), (2, 2, 0)]
 MID = [(b"s1", [(b"c1", C4)]), (b"s2", [(b"c1", C4)])]
+# six more such contigs: one per relative order of the three canonical splitter values (orientation decisions depend on those orders)
+MID_CONTIGS = [
+    ([3, 3, 0, 2, 3, 3, 2, 3, 2, 1, 1, 2, 1, 0, 2, 1, 2, 0, 0, 2, 3, 0, 2, 3, 2, 1, 3], [(3, 2, 3), (1, 0, 2), (2, 3, 0)]),
+    ([1, 1, 2, 3, 0, 0, 3, 2, 1, 1, 3, 3, 3, 1, 1, 1, 3, 0, 0, 1, 0, 2, 0, 2, 3, 3, 3], [(0, 3, 2), (3, 1, 1), (1, 0, 2)]),
+    ([2, 0, 0, 2, 0, 0, 1, 1, 2, 3, 2, 2, 0, 3, 3, 3, 2, 3, 1, 3, 1, 0, 3, 1, 2, 1, 3], [(0, 1, 1), (0, 3, 3), (3, 1, 0)]),
+    ([3, 2, 2, 1, 1, 0, 2, 3, 0, 2, 0, 3, 1, 3, 3, 1, 1, 1, 0, 0, 1, 0, 3, 0, 2, 1, 1], [(0, 2, 3), (1, 3, 3), (0, 1, 0)]),
+    ([3, 3, 0, 3, 3, 1, 1, 0, 1, 1, 1, 1, 2, 0, 2, 2, 2, 2, 0, 0, 0, 2, 1, 2, 0, 1, 2], [(1, 1, 0), (2, 0, 2), (0, 0, 2)]),
+    ([2, 0, 0, 2, 3, 3, 2, 1, 1, 2, 3, 0, 1, 3, 0, 0, 0, 3, 3, 0, 3, 2, 0, 1, 0, 2, 1], [(3, 2, 1), (1, 3, 0), (0, 3, 2)]),
+]
+MID_ALTS = [([(b"s1", [(b"c1", c)]), (b"s2", [(b"c1", c)])], spl) for c, spl in [(C4, SPL3)] + MID_CONTIGS]
 
 
 # shared groups, a whole-contig reverse complement, an IUPAC code, an N-run, a contig of exactly k bases, one shorter than k, identical contigs
